@@ -156,7 +156,7 @@ pub fn templates() -> Vec<G> {
     let bb = || G::Just("b".into());
     let any = || G::Any;
     let rep = |item: G, sep: Option<G>, leading: bool, trailing: bool, lo: u8, hi: Option<u8>, sink: Sink| {
-        G::Rep(Rep { item: b(item), sep: sep.map(b), leading, trailing, lo, hi, sink, cfg: false })
+        G::Rep(Rep { item: b(item), sep: sep.map(b), leading, trailing, lo, hi, sink, cfg: false, ctxb: 0 })
     };
     let mut out = vec![
         // choice: emission in a first alternative that fails later
